@@ -247,6 +247,194 @@ def is_constant_obligation(n, mode, st):
     return []
 
 
+def prefilled_shard(payload):
+    """Second BNL block: 16 concrete mutually non-dominated rows (i, 15-i, 50) fill window slots
+    0..15, then NS symbolic rows follow (assumed to have larger sums, in index order, which fixes the
+    stable argsort to the identity), so window slot 16 (block 1) and the block-min bookkeeping at
+    the block boundary are reached."""
+    NS, = payload
+    st = Stats()
+    st.instantiations = 1
+    NC, d = 16, 3
+    n = NC + NS
+    conc = [[float(i), float(15 - i), 50.0] for i in range(NC)]
+    I.MODE["float"] = "real"
+    cells = []
+    for i in range(n):
+        for k in range(d):
+            cells.append(z3.RealVal(conc[i][k]) if i < NC else z3.Real(f"x{i}_{k}"))
+    data = I.SArr((n, d), cells, dtype="real")
+    mask = I.SArr((n,), [False] * n, dtype="bool")
+    solver = z3.Solver()
+    sym = [c for c in cells[NC * d:]]
+    solver.add([z3.And(c >= 0, c <= 200) for c in sym])
+    rowsum = lambda i: z3.Sum([cells[i * d + k] for k in range(d)])
+    solver.add(rowsum(NC) > 66)
+    for i in range(NC + 1, n):
+        solver.add(rowsum(i) > rowsum(i - 1))
+
+    class NPfixed(I.NP):
+        def argsort(interp, a, kind=None):
+            return I.SArr((a.shape[0],), list(range(a.shape[0])), dtype="int")
+        argsort._needs_interp = True
+        argsort = staticmethod(argsort)
+    import accelforge.mapper.FFM._pareto_df.fast_pareto as FP
+    t0 = time.time()
+    it = I.Interp(kernel_source(), {"np": NPfixed, "numba": I.NUMBA, "range": I._range, "NUMPY_FLOAT_TYPE": "real"}, solver)
+    it.module_globals = vars(FP)
+    it.run({"data": data, "sorted_idx": I.SArr((n,), list(range(n)), dtype="int"), "offsets": I.SArr((2,), [0, n], dtype="int"),
+            "n_total_groups": 1, "result_mask": mask})
+    st.encode_s += time.time() - t0
+    groups = [list(range(n))]
+    s = z3.Solver()
+    s.add(solver.assertions())
+    s.add(it.side)
+    label = f"pre-filled window: 16 concrete + {NS} symbolic rows x 3 (reals in [0,200])"
+    if z3_check(s, st, 120000) != "sat":
+        raise HarnessError("vacuous " + label)
+    st.vacuity_ok += 1
+    s.add(z3.Or(spec_formula(cells, mask.cells, n, d, "real", groups)))
+    r = z3_check(s, st, 900000)
+    count_obligation(st, r, label)
+    st.extra.setdefault("per_obligation_s", []).append(f"{label}: {r}")
+    viol = []
+    if r == "sat":
+        m = float32_exact_model(s, sym, st) or s.model()
+        mat = [[float(m.eval(cells[i * d + k], model_completion=True).as_fraction()) for k in range(d)] for i in range(n)]
+        got, exp = real_mask(mat, groups), brute(mat, groups)
+        st.replays += 1
+        if got == exp:
+            raise HarnessError(f"pre-filled window model does not reproduce: {mat[NC:]}")
+        viol.append(dict(property=PID, matrix=mat, groups=groups, mode="real", kept=got, expected=exp, key=None,
+                         what=f"fast_pareto_mask keeps {got}, non-dominated rows are {exp} for 16 antichain rows (i,15-i,50) followed by {mat[NC:]}"))
+    dd = st.to_dict()
+    dd["violations"] = viol
+    dd["known"] = []
+    return dd
+
+
+# ---------------------------------------------------------------------------------------------
+# glue: goal vector -> comparison semantics (solver-generated distinguishing inputs)
+# ---------------------------------------------------------------------------------------------
+PRIMES = (2, 3, 5, 7, 11)
+GOALS = ("min", "max", "diff", "min_per_prime_factor", "max_per_prime_factor")
+
+
+def _expo(x, p):
+    e = 0
+    while x % p == 0:
+        x //= p
+        e += 1
+    return e
+
+
+def goal_spec_py(mat, goals, distinct=True):
+    """brute-force semantics of the goal vector on an integer matrix"""
+    n = len(mat)
+
+    def comps(row):
+        out = []
+        for v, g in zip(row, goals):
+            if g == "min":
+                out.append(v)
+            elif g == "max":
+                out.append(-v)
+            elif g == "min_per_prime_factor":
+                out += [_expo(v, p) for p in PRIMES]
+            elif g == "max_per_prime_factor":
+                out += [-_expo(v, p) for p in PRIMES]
+        return out
+    key = lambda row: tuple(v for v, g in zip(row, goals) if g == "diff")
+    C = [comps(r) for r in mat]
+    keep = []
+    for i in range(n):
+        dom = any(j != i and key(mat[j]) == key(mat[i]) and all(a <= b for a, b in zip(C[j], C[i])) and any(a < b for a, b in zip(C[j], C[i])) for j in range(n))
+        keep.append(not dom)
+    if distinct:
+        seen = set()
+        for i in range(n):
+            if keep[i]:
+                t = tuple(mat[i])
+                if t in seen:
+                    keep[i] = False
+                seen.add(t)
+    return keep
+
+
+def goal_spec_z3(cells, n, goals):
+    def ex(v, p):
+        r = z3.IntVal(0)
+        for x in range(1, 13):
+            r = z3.If(v == x, _expo(x, p), r)
+        return r
+
+    def comps(i):
+        out = []
+        for k, g in enumerate(goals):
+            v = cells[i][k]
+            if g == "min":
+                out.append(v)
+            elif g == "max":
+                out.append(-v)
+            elif g == "min_per_prime_factor":
+                out += [ex(v, p) for p in PRIMES]
+            elif g == "max_per_prime_factor":
+                out += [-ex(v, p) for p in PRIMES]
+        return out
+    C = [comps(i) for i in range(n)]
+    same = lambda i, j: z3.And([cells[i][k] == cells[j][k] for k, g in enumerate(goals) if g == "diff"] or [z3.BoolVal(True)])
+    keep = []
+    for i in range(n):
+        doms = [z3.And(same(i, j), z3.And([a <= b for a, b in zip(C[j], C[i])]), z3.Or([a < b for a, b in zip(C[j], C[i])] or [z3.BoolVal(False)])) for j in range(n) if j != i]
+        keep.append(z3.Not(z3.Or(doms)))
+    return keep
+
+
+def glue_probe(st, tier):
+    """The numpy glue (goal signs, prime-factor expansion, group encoding, dedup) is not encoded.
+    z3 generates, for each goal vector g and each single-position variation g', an integer matrix on
+    which the two specifications disagree; the real fast_pareto_mask(M, g) is run on it and compared
+    with the brute-force semantics of g.  (Test generation by the solver; the deciding step of each
+    run is concrete.)"""
+    import itertools
+    import numpy as np
+    from accelforge.mapper.FFM._pareto_df.fast_pareto import fast_pareto_mask
+    out = []
+    n = 4
+    vecs = [v for L in (2, 3) for v in itertools.product(GOALS, repeat=L) if any(g != "diff" for g in v)]
+    if tier == "quick":
+        vecs = [v for v in vecs if len(v) == 2] + [v for i, v in enumerate(vecs) if len(v) == 3 and i % 5 == 0]
+    for g in vecs:
+        k = len(g)
+        cells = [[z3.Int(f"m{i}_{j}") for j in range(k)] for i in range(n)]
+        base = [z3.And(c >= 1, c <= 12) for row in cells for c in row]
+        sg = goal_spec_z3(cells, n, g)
+        for pos in range(k):
+            for alt in GOALS:
+                if alt == g[pos]:
+                    continue
+                g2 = tuple(alt if j == pos else x for j, x in enumerate(g))
+                if not any(x != "diff" for x in g2):
+                    continue
+                s = z3.Solver()
+                s.add(base)
+                s2 = goal_spec_z3(cells, n, g2)
+                s.add(z3.Or([a != b for a, b in zip(sg, s2)]))
+                r = z3_check(s, st, 20000)
+                if r != "sat":
+                    continue
+                m = s.model()
+                mat = [[m.eval(c, model_completion=True).as_long() for c in row] for row in cells]
+                got = [bool(x) for x in fast_pareto_mask(np.array(mat, dtype=np.float32), list(g), distinct=True)]
+                exp = goal_spec_py(mat, g, distinct=True)
+                st.extra["glue_distinguishing_inputs"] = st.extra.get("glue_distinguishing_inputs", 0) + 1
+                if got != exp:
+                    out.append(dict(property=PID, matrix=mat, groups=None, goals=list(g), mode="glue", kept=got, expected=exp, key=None,
+                                    what=f"fast_pareto_mask({mat}, goals={list(g)}) keeps {got}, the goal semantics give {exp}"))
+                    return out
+    return out
+
+
 def cast_probe(st):
     """float64 input: the glue casts to float32 before comparing.  z3 picks two distinct float64
     values with the same float32 rounding; the real filter runs on float64 matrices built from them."""
@@ -303,6 +491,13 @@ def run(args):
     t0 = time.time()
     if args.replay:
         v = json.load(open(args.replay))
+        if v.get("mode") == "glue":
+            import numpy as np
+            from accelforge.mapper.FFM._pareto_df.fast_pareto import fast_pareto_mask
+            got = [bool(x) for x in fast_pareto_mask(np.array(v["matrix"], dtype=np.float32), v["goals"], distinct=True)]
+            exp = goal_spec_py(v["matrix"], v["goals"])
+            print("kept", got, "goal semantics", exp)
+            return 0 if got == exp else 1
         mat = [[float(x) for x in row] for row in v["matrix"]]
         got = real_mask(mat, v["groups"], dtype="float64" if v["mode"] == "float64" else "float32")
         exp = brute(mat, v["groups"])
@@ -319,9 +514,11 @@ def run(args):
     stats = Stats()
     violations = []
     known_recs = cast_probe(stats) + sum_tie_probe(stats)
+    violations.extend(glue_probe(stats, args.tier))
     for n_, mode_ in ((3, "real"), (4, "real"), (3, "fp32")):
         violations.extend(is_constant_obligation(n_, mode_, stats))
     res = run_sharded(shard, [(n, d, mode, g, True) for n, d, mode, g in shapes], args.jobs)
+    res += run_sharded(prefilled_shard, [(2,)] if args.tier == "quick" else [(2,), (3,)], args.jobs)
     for r in res:
         stats.merge(r)
         violations.extend(r["violations"])
@@ -339,7 +536,8 @@ def run(args):
         functions_encoded=["fast_pareto._is_constant", "fast_pareto._sfs_bnl_core (source fetched with inspect.getsource at run time; all four paths: d==1, one varying column, two varying columns, SFS + block BNL)"],
         bounds=dict(shapes=[f"{n}x{d} {mode} groups={g}" for n, d, mode, g in shapes], unwinding="loops unrolled until the solver proves no further iteration reachable (cap 64)",
                     values="reals: unbounded and |x|<1e6; float32: all non-NaN incl. +-inf, and finite |x|<1e30",
-                    outside="numba fastmath code generation (replays run the compiled function), NaN, > 6 symbolic rows, second BNL block (needs > 16 kept rows), "
+                    prefilled_window="16 concrete antichain rows + 2 (quick) / 3 (thorough) symbolic rows x 3 columns: second BNL block reached",
+                    outside="numba fastmath code generation (replays run the compiled function), NaN, > 6 symbolic rows, third and later BNL blocks, "
                             "the numpy/pandas glue of fast_pareto_mask (group encoding, goal signs, prime-factor expansion, dedup) apart from the replays and the cast probe"),
         assumptions=["np.argsort(kind='mergesort') modelled as the (unique) stable sorting permutation",
                      "groups are given as a concrete partition (the contract of _encode_groups/_counting_sort)",
